@@ -928,6 +928,8 @@ def c10_actions(n):
     A['adopt'] = [{'op': 'clone', 'h': 'hP', 'as': 'tt'}, {'op': 'adopt', 'a': 'hB', 'b': 'tt'}, {'op': 'store', 'via': 'hB', 'h': 'tt'}]
     A['unadopt'] = [{'op': 'take', 'via': 'hP', 'slot': 0, 'as': 'tq'}, {'op': 'unadopt', 'a': 'hP', 'b': 'tq'}, {'op': 'strong_count', 'h': 'tq'}]
     A['nested-collection'] = [{'op': 'drop', 'h': 'hP'}]
+    # the same with Q having adopted P twice (P's in-degree exceeds its out-degree)
+    A['nested-collection-x2'] = [{'op': 'drop', 'h': 'hP'}]
     A['counts'] = [{'op': 'strong_count', 'h': 'hB'}, {'op': 'weak_count', 'h': 'hB'}, {'op': 'deref', 'h': 'hB'}]
     # lets go of the Weak to its dying peer that its value holds (possibly the last Weak to that peer), allocates, then looks at the bystander
     A['drop-own-weak'] = [{'op': 'self_take_weak', 'slot': 0, 'as': 'ownw'}, {'op': 'wdrop', 'w': 'ownw'}, {'op': 'new', 'obj': n + 7, 'as': 'fresh'},
@@ -945,8 +947,10 @@ def items_C10(tier, seed, P):
                 ops += [{'op': 'new', 'obj': B, 'as': 'hB'}, {'op': 'extras', 'h': 'hB', 'n': 'eB'},
                         {'op': 'new', 'obj': Pp, 'as': 'hP'}, {'op': 'new', 'obj': Q, 'as': 'hQ'},
                         {'op': 'clone', 'h': 'hQ', 'as': 'tq0'}, {'op': 'adopt', 'a': 'hP', 'b': 'tq0'}, {'op': 'store', 'via': 'hP', 'h': 'tq0'},
-                        {'op': 'clone', 'h': 'hP', 'as': 'tp0'}, {'op': 'adopt', 'a': 'hQ', 'b': 'tp0'}, {'op': 'store', 'via': 'hQ', 'h': 'tp0'},
-                        {'op': 'drop', 'h': 'hQ'}]
+                        {'op': 'clone', 'h': 'hP', 'as': 'tp0'}, {'op': 'adopt', 'a': 'hQ', 'b': 'tp0'}, {'op': 'store', 'via': 'hQ', 'h': 'tp0'}]
+                if an == 'nested-collection-x2':
+                    ops += [{'op': 'clone', 'h': 'hP', 'as': 'tp1'}, {'op': 'adopt', 'a': 'hQ', 'b': 'tp1'}, {'op': 'store', 'via': 'hQ', 'h': 'tp1'}]
+                ops += [{'op': 'drop', 'h': 'hQ'}]
                 # a Weak to a peer of the dying group, upgraded by the destructor (must be None or keep the peer alive)
                 peer = (actor + 1) % n
                 ops += [{'op': 'downgrade', 'h': H(peer), 'as': 'wp'}, {'op': 'store_weak', 'via': H(actor), 'w': 'wp'}]
@@ -1474,6 +1478,43 @@ def history_items(prop, tier, seed, oracles, opts=None, accept=None, relabel=Fal
                             it['accept_props'] = accept
                             it['relabel'] = relabel
                         items.append(it)
+    # the handle the owner stores is the target's ONLY strong handle (the program let go of its own); the program takes it back
+    # (take + unadopt, or take without unadopt is not used here) and keeps it: the target is then held by the program alone
+    for ctx in ('pair', 'owner-in-ring', 'owner-target-ring'):
+        n = 3 if ctx == 'owner-in-ring' else 2
+        for m in (1, 2):
+            ops = [{'op': 'new', 'obj': i, 'as': H(i)} for i in range(n)]
+            ops += [{'op': 'extras', 'h': H(i), 'n': 'e%d' % i} for i in range(n) if i != 1]
+            if ctx == 'owner-in-ring':
+                ops += [{'op': 'clone', 'h': H(2), 'as': 'r0'}, {'op': 'adopt', 'a': H(0), 'b': 'r0'}, {'op': 'store', 'via': H(0), 'h': 'r0'},
+                        {'op': 'clone', 'h': H(0), 'as': 'r1'}, {'op': 'adopt', 'a': H(2), 'b': 'r1'}, {'op': 'store', 'via': H(2), 'h': 'r1'}]
+            if ctx == 'owner-target-ring':
+                ops += [{'op': 'clone', 'h': H(0), 'as': 'r0'}, {'op': 'adopt', 'a': H(1), 'b': 'r0'}, {'op': 'store', 'via': H(1), 'h': 'r0'}]
+            first = 1 if ctx == 'owner-in-ring' else 0
+            for k in range(m - 1):
+                ops += [{'op': 'clone', 'h': H(1), 'as': 'a%d' % k}, {'op': 'adopt', 'a': H(0), 'b': 'a%d' % k}, {'op': 'store', 'via': H(0), 'h': 'a%d' % k}]
+            # the program's own handle to the target is moved into the owner: afterwards the owner's slots hold every handle to it
+            ops += [{'op': 'adopt', 'a': H(0), 'b': H(1)}, {'op': 'store', 'via': H(0), 'h': H(1)}]
+            for k in range(m):
+                ops += [{'op': 'take', 'via': H(0), 'slot': first, 'as': 'x%d' % k}, {'op': 'unadopt', 'a': H(0), 'b': 'x%d' % k}]
+            for k in range(1, m):
+                ops += [{'op': 'drop', 'h': 'x%d' % k}]
+            if obs:
+                for i in range(n):
+                    ops.append({'op': 'downgrade', 'h': ('x0' if i == 1 else H(i)), 'as': 'ow%d' % i})
+            others = [i for i in range(n) if i != 1]
+            for perm in itertools.permutations(others):
+                o2 = list(ops)
+                for i in perm:
+                    o2 += [{'op': 'clone', 'h': H(i), 'as': 'c%d' % i}, {'op': 'drop', 'h': 'c%d' % i}, {'op': 'drop', 'h': H(i)}]
+                    o2 += [{'op': 'strong_count', 'h': 'x0'}, {'op': 'deref', 'h': 'x0'}]
+                o2 += [{'op': 'drop', 'h': 'x0'}]
+                it = dict(prop=prop, name='hist sole-handle %s m=%d kept drops=%s' % (ctx, m, ''.join(str(i) for i in perm)), script={'ops': o2},
+                          sym=True, oracles=set(oracles), opts=dict(opts or {}), layouts=std_layouts(n, tier, seed)[:2])
+                if accept:
+                    it['accept_props'] = accept
+                    it['relabel'] = relabel
+                items.append(it)
     return items
 
 
@@ -1492,6 +1533,18 @@ def mult_items(prop, tier, seed, oracles, opts=None, wextras=False):
         for seq in F.drop_sequences(n, n):
             items.append(dict(prop=prop, name='%s drops=%s' % (nm, ''.join('%s%d' % q for q in seq)), script={'ops': list(base) + F.drop_ops(seq)}, sym=True,
                               oracles=set(oracles), opts=dict(opts or {}), layouts=std_layouts(n, tier, seed)[:3 if tier == 'quick' else 6]))
+    # the same graphs built in the other order: every adoption is recorded first, through the program's own handle to the target,
+    # and the handles are cloned and stored in their owners only afterwards (each adopt still adds exactly one record)
+    for (n, e, nm) in [(2, [R(0, 1)], 'N2[0=>1]'), (2, [R(0, 1), R(1, 0)], 'N2[0<=>1]')] + [x for x in sh if all(i != j and r for (i, j, r, q) in x[1])][:4 if tier == 'quick' else None]:
+        base = [{'op': 'new', 'obj': i, 'as': H(i)} for i in range(n)] + [{'op': 'extras', 'h': H(i), 'n': 'e%d' % i} for i in range(n)]
+        if wextras:
+            base += [{'op': 'wextras', 'h': H(i), 'n': 'w%d' % i} for i in range(n)]
+        base += [{'op': 'adopt', 'a': H(i), 'b': H(j)} for (i, j, r, q) in e]
+        for t, (i, j, r, q) in enumerate(e):
+            base += [{'op': 'clone', 'h': H(j), 'as': 'af%d' % t}, {'op': 'store', 'via': H(i), 'h': 'af%d' % t}]
+        for seq in F.drop_sequences(n, n)[:None if n <= 2 else 3]:
+            items.append(dict(prop=prop, name='%s adopt-first drops=%s' % (nm, ''.join('%s%d' % q for q in seq)), script={'ops': list(base) + F.drop_ops(seq)}, sym=True,
+                              oracles=set(oracles), opts=dict(opts or {}), layouts=std_layouts(n, tier, seed)[:2]))
     return items
 
 
@@ -2025,10 +2078,13 @@ def _with_debug_sample(pid, nq, nt):
         cand = [it for it in its if not it['name'].startswith('lemma') and not it.get('witness') and 'post_item' not in it and 'finish' not in it]
         rnd = random.Random('dbg|%s|%d' % (pid, seed))
         k = nq if tier == 'quick' else nt
-        pick = rnd.sample(cand, min(k, len(cand)))
-        return its + _debug_profile_copies(pick, lambda it: True, k)
+        # histories with an elided unadopt are where a debug-only invariant check is most likely to be wrong: always included
+        must = [it for it in cand if 'stale' in (it.get('tags') or []) or (it.get('opts') or {}).get('stale')]
+        rest = [it for it in cand if it not in must]
+        pick = must + rnd.sample(rest, min(k, len(rest)))
+        return its + _debug_profile_copies(pick, lambda it: True, k + len(must))
     PROPS[pid]['items'] = items
 
 
-for _pid, _nq, _nt in (('C02', 80, 600), ('C03', 60, 400), ('C06', 60, 400), ('C10', 40, 300), ('C11', 40, 300), ('C12', 60, 400), ('C05', 30, 200)):
+for _pid, _nq, _nt in (('C02', 80, 600), ('C03', 60, 400), ('C06', 60, 400), ('C10', 40, 300), ('C11', 40, 300), ('C12', 60, 400), ('C05', 30, 200), ('C13', 40, 300)):
     _with_debug_sample(_pid, _nq, _nt)
